@@ -960,12 +960,21 @@ func c19ErrorEdges(c *core.Ctx, fns []*ssa.Function) {
 			handedUp := map[*ssa.Return]bool{}
 			handedBy := ""
 			if len(tests) == 0 {
-				rets, ok := c19HandedUp(f, call, errSet, valSet)
+				rets, ok, foreign := c19HandedUp(f, call, errSet, valSet)
 				if !ok {
 					c.Bad("R19c", key, core.InstrPos(call), "the error result is never compared with nil")
 					continue
 				}
-				if handedBy = pairs.responsible(f, call); handedBy == "" {
+				if foreign {
+					// next to the call's own values the return carries values that do not stem from the call: only the
+					// callers (every one of them known and checked to test the error first) can vouch for the tuple
+					if pairs.callersTest(f) {
+						handedBy = pairs.callersVouch(f)
+					}
+				} else {
+					handedBy = pairs.responsible(f, call)
+				}
+				if handedBy == "" {
 					c.Bad("R19c", key, core.InstrPos(call), "the error result is never compared with nil: it is handed up together with the value, but neither is the tuple produced by a function this rule checks nor are all callers of "+fk+" known and checked")
 					continue
 				}
